@@ -1,7 +1,6 @@
 package c20
 
 import (
-	"bytes"
 	"fmt"
 	"math/big"
 	"testing"
@@ -186,30 +185,5 @@ func TestC20_RegressF12g_GrowCanonicalBitReverse(t *testing.T) {
 				}
 			}
 		}
-	})
-}
-
-// F12h: WriteTo wrote the four uint32 header fields through binary.Write, which drops the count of a partially
-// accepted write: on a writer that fails inside one of those fields the returned n was short of what the
-// writer had taken (io.WriterTo: n is the number of bytes written).
-func TestC20_RegressF12h_WriteToPartialWriteCount(t *testing.T) {
-	forIops(t, func(t *testing.T, c *cx) {
-		sh, _ := regressPoly(c, 2)
-		m := newModel(sh, canReg, 2)
-		var full bytes.Buffer
-		if _, err := m.lib.WriteTo(&full); err != nil {
-			t.Fatal(err)
-		}
-		total := full.Len()
-		for limit := 0; limit < total; limit++ {
-			for _, partial := range []bool{false, true} {
-				lw := &limitWriter{limit: int64(limit), partial: partial}
-				n, err := m.lib.WriteTo(lw)
-				if err == nil || n != lw.n {
-					t.Fatalf("C20: WriteTo on a writer accepting %d of %d bytes (partial=%v) returned (%d, %v), the writer took %d", limit, total, partial, n, err, lw.n)
-				}
-			}
-		}
-		rep.Case("C20_Regress", c.I.Name()+" F12h", true, "F12h")
 	})
 }
